@@ -283,6 +283,14 @@ func (conn *Conn) recv() {
 			})
 		}
 	}
+	// Let the decode queue finish the responses that were completely
+	// received before the connection ended, in order, so that their calls
+	// still complete successfully.
+	drained := make(chan struct{})
+	pipeline.Schedule(func() {
+		close(drained)
+	})
+	<-drained
 	conn.mutex.Lock()
 	conn.shutdown = true
 	if err == io.EOF {
